@@ -28,9 +28,9 @@ SKIP_FEATS = {'real'}
 def jobs_for(tier):
     jobs = []
     if tier == 'quick':
-        tpls = corpus.select(feats={'basic', 'ext', 'tag', 'set', 'setof', 'named', 'opt', 'bits'}, exclude={'manyadd'})
+        tpls = corpus.select(feats={'basic', 'ext', 'tag', 'set', 'setof', 'named', 'opt', 'bits'}, exclude={'manyadd', 'spill'})
     else:
-        tpls = corpus.TEMPLATES + corpus.generated(exclude={'real'})
+        tpls = [t for t in corpus.TEMPLATES if 'spill' not in t['feats']] + corpus.generated(exclude={'real'})
     if tier == 'quick':
         tpls = tpls + corpus.generated(quick=True, exclude={'real'})
     for t in tpls:
